@@ -9,9 +9,7 @@ package driver
 
 import (
 	"encoding/json"
-	"fmt"
 	"os"
-	"strings"
 	"sync"
 	"time"
 
@@ -220,11 +218,10 @@ type State struct {
 	Conf   ConfObs    `json:"conf"`
 }
 
-// ConfObs: the projection of the reported state onto the variables of the model (Prunner!CoreState), recorded at the
-// quiescent moment after each step of a gated script
+// ConfObs: marks the lines of a gated script (one model step per driver step): lib/conform.py and lib/impltrace.py compare the
+// vocabulary of these lines with the specification
 type ConfObs struct {
-	Has  bool   `json:"has"`
-	Proj string `json:"proj"`
+	Has bool `json:"has"`
 }
 
 type Event struct {
@@ -283,42 +280,6 @@ type world struct {
 func (w *world) digest() string {
 	b, _ := json.Marshal([]interface{}{w.st.Jobs, w.st.Pipes, w.st.Store, w.st.Logs, w.st.Extra, w.st.XLogs})
 	return string(b)
-}
-
-// projection: the part of the observed state that is compared with the model's CoreState (same canonical form as
-// lib/planner.py: per job [listed, started, completed, canceled, lastErr class, task statuses, open tasks])
-func (w *world) projection() string {
-	var sb strings.Builder
-	for i, j := range w.st.Jobs {
-		if i > 0 {
-			sb.WriteByte(';')
-		}
-		if !j.Listed {
-			// nothing is reported about a job that is not listed (purged, lost); its runs may still be open
-			sb.WriteString("-:")
-		} else {
-			le := j.LastErr
-			fmt.Fprintf(&sb, "%d%d%d%d:%s:", b2i(j.Listed), b2i(j.Started), b2i(j.Completed), b2i(j.Canceled), le)
-			for _, t := range j.Tasks {
-				sb.WriteString(t.Status)
-				sb.WriteByte(',')
-			}
-			sb.WriteByte(':')
-		}
-		for ti, r := range w.st.Runs[i] {
-			if r.Open {
-				fmt.Fprintf(&sb, "%d,", ti+1)
-			}
-		}
-	}
-	return sb.String()
-}
-
-func b2i(b bool) int {
-	if b {
-		return 1
-	}
-	return 0
 }
 
 func (w *world) nowMs() int {
